@@ -48,6 +48,14 @@ theorem select_cost_le (g : BuildGraph) (s : Selector) (h : Host) (order sel : L
     simpa using this
   omega
 
+/-- the hypotheses of `select_cost_le` are satisfiable (x ← alias ← t, pattern `//:t`): cost 3 ≤ 3 + 2 -/
+example :
+    let g : BuildGraph := ⟨[⟨⟨[], [120]⟩, true, [], [], false⟩, ⟨⟨[], [97, 120]⟩, false, [], [], false⟩,
+      ⟨⟨[], [116]⟩, true, [], [], false⟩], [(0, 1), (1, 2)]⟩
+    ([2, 0, 1] : List Nat).Nodup ∧ (∀ i ∈ [2, 0, 1], i < g.nodes.length) ∧
+    selectForBuild g ⟨[⟨[], [116], false⟩], [], [], .all⟩ ⟨[108], false⟩ [2, 0, 1] = .ok [0, 1, 2] 3 := by
+  refine ⟨by decide, by decide, by decide⟩
+
 /-- `grog changes --dependents=transitive`: one `GetDescendants` per changed target, hence at most
     `|changed| · (|V| + |E|)` steps. -/
 theorem changes_cost_le (n : Nat) (es : List Edge) (hwf : WF n es) :
